@@ -760,6 +760,20 @@ def _oracle_vars_sim(src, ops, check_reads=False):
 
 
 # ---------------------------------------------------------------- C06: cutoffs gate propagation
+def _mapref_input_has_other_cutoff(nodes, r, nondefault):
+    """some node on the chain of inputs of map_ref r (through further map_refs) was given a cutoff"""
+    seen = 0
+    while seen < 64:
+        n = nodes.get(r)
+        if n is None or n["kind"] != "MapRef" or not n.get("children"):
+            return False
+        r = n["children"][0]
+        if r in nondefault:
+            return True
+        seen += 1
+    return False
+
+
 def _mapref_over_map_with_old(nodes, r):
     """node r is a map_ref whose input, through further map_refs, is a map_with_old node"""
     seen = 0
@@ -781,6 +795,7 @@ def oracle_cutoffs(src, ops, tail):
     nh = 0
     always, never = {}, set()        # node rank -> changed_at frozen at; never set
     fncut = set()                    # top-level nodes that currently have a function cutoff
+    given_cutoff = set()             # top-level nodes that were ever given a cutoff explicitly
     plain, nondefault = {}, set()    # top-level nodes made by an ordinary combinator; those ever given a cutoff
     computed = {}                    # node rank -> value it had at the end of the stabilise that last recomputed it
     var_rank, written = [], set()    # variable index -> rank of its watch node; variables written since the last stabilise
@@ -802,6 +817,7 @@ def oracle_cutoffs(src, ops, tail):
             nh += 1
         if word == "cutoff":
             nondefault.add(rank_of_handle.get(int(line.split()[1])))
+            given_cutoff.add(rank_of_handle.get(int(line.split()[1])))
         if op.result.startswith("panic"):
             return None
         if word == "cutoff" and op.nodes:
@@ -874,6 +890,9 @@ def oracle_cutoffs(src, ops, tail):
                     continue
                 if after["kind"] in ("MapWithOld", "BindLhs", "Expert"):
                     continue
+                if after["kind"] == "MapRef" and _mapref_input_has_other_cutoff(op.nodes, r, given_cutoff):
+                    continue     # an input whose own cutoff suppressed a different value changed silently: the map_ref's
+                                 # previous value is then not the one it had when it last ran
                 if after["kind"] == "MapRef" and _mapref_over_map_with_old(op.nodes, r):
                     return (f"op {op.idx}: node {r} is a map_ref whose input is a map_with_old node: it was stamped as changed "
                             f"(round {t}) although its value {after['val']} is equal to the previous one")
